@@ -389,3 +389,36 @@ Proof.
   { eapply DW_member; [reflexivity|]. eapply DW_global; [reflexivity|]. constructor. }
   split; [exact D|]. intros H. pose proof (denotes_w_fun _ _ _ _ D _ H). discriminate.
 Qed.
+
+(* Sensitivity: a const_data that resolves a plain global name in the file being INFERRED
+   ([self_file]) instead of the file the body lives in returns a value the expression does not
+   denote (the seeded change `file: self.loc.file()` in the LocalGlobal arm). *)
+Fixpoint const_data_w_selfish (w : world) (self_file : N) (fuel : nat) (cur : N) (e : wexpr)
+  : result (option cdata) :=
+  match fuel with
+  | O => OutOfFuel
+  | S f =>
+    match e with
+    | WGlobal g =>
+        match w self_file g with
+        | Some gd => const_data_w_selfish w self_file f self_file (wg_body gd)
+        | None => Crash SITE_NO_GLOBAL
+        end
+    | WMember file g =>
+        match w file g with
+        | Some gd => const_data_w_selfish w self_file f file (wg_body gd)
+        | None => Crash SITE_NO_GLOBAL
+        end
+    | WLocal _ (Some v) => const_data_w_selfish w self_file f cur v
+    | _ => const_data_w w (S f) cur e
+    end
+  end.
+
+Lemma selfish_lookup_is_wrong :
+  const_data_w_selfish demo_world 0 10 0 (WMember 1 8) = Ok (Some (DInt 3))
+  /\ const_data_w demo_world 10 0 (WMember 1 8) = Ok (Some (DInt 5))
+  /\ ~ denotes_w demo_world 0 (WMember 1 8) 3.
+Proof.
+  split; [vm_compute; reflexivity|]. split; [vm_compute; reflexivity|].
+  exact (proj2 (proj2 demo_world_ok)).
+Qed.
